@@ -37,6 +37,7 @@ ASSUMPTIONS = [
 ]
 
 KEYS = [3.0, 1.0, float("nan"), 2.0, 1.0, 3.0]
+KEYS_SORTED_APPEARANCE = [1.0, 1.0, float("nan"), 2.0, 3.0, 2.0]
 XS = [1, 0, 1, 1, 1, 1]
 MASK = [1, 1, 1, 0, 1, 1]
 N = 6
@@ -212,6 +213,8 @@ class AliasSpace(Subspace):
             for op in OPNAMES:
                 for kc in KEY_CONTS:
                     cells.append((op, kc, "ndarray", "f8", rep))
+                    if kc in ("ndarray", "pd_series", "pa_chunked"):
+                        cells.append((op, kc + "+inc", "ndarray", "f8", rep))
                 for vc in VAL_CONTS:
                     for dt in dts:
                         if q and rep == "chunkwise" and dt not in ("f8", "M8[ns]"):
@@ -244,8 +247,11 @@ class AliasSpace(Subspace):
         sched.set_schedule(sched.Schedule())
         warnings.simplefilter("ignore")
 
+        inc = kc.endswith("+inc")
+        kc = kc[:-4] if inc else kc
+
         def build():
-            karr = np.array(KEYS, dtype="f8")
+            karr = np.array(KEYS_SORTED_APPEARANCE if inc else KEYS, dtype="f8")
             if kc in ("categorical",):
                 karr = np.array(["c", "a", None, "b", "a", "c"], dtype=object)
             K = make_input(karr, kc)
@@ -322,11 +328,27 @@ class AliasSpace(Subspace):
         handles = writable_handles(r1)
         for nm, a in handles:
             scribble(a)
-        if isinstance(r1, pd.Series) and len(r1):
-            try:
-                r1.iloc[0] = r1.iloc[-1]
-            except Exception:  # noqa
-                pass
+        # public setters (copy-on-write does not track arrays that were wrapped with copy=False)
+        if isinstance(r1, (pd.Series, pd.DataFrame)) and len(r1):
+            for sl in (slice(None), slice(0, 1)):
+                try:
+                    if isinstance(r1, pd.Series):
+                        cur = r1.iloc[sl]
+                        if cur.dtype.kind in "iuf":
+                            r1.iloc[sl] = (cur + 7).to_numpy()
+                        elif cur.dtype.kind == "b":
+                            r1.iloc[sl] = (~cur).to_numpy()
+                        else:
+                            r1.iloc[sl] = r1.iloc[::-1].iloc[sl].to_numpy()
+                    else:
+                        for j in range(r1.shape[1]):
+                            cur = r1.iloc[sl, j]
+                            if cur.dtype.kind in "iuf":
+                                r1.iloc[sl, j] = (cur + 7).to_numpy()
+                            else:
+                                r1.iloc[sl, j] = r1.iloc[::-1, j].iloc[sl].to_numpy()
+                except Exception:  # noqa
+                    pass
         if not check_inputs(f"mutating the result ({', '.join(h for h, _ in handles) or 'setter'})"):
             seams.reset()
             return res
